@@ -242,6 +242,10 @@ func RunOnce(sc Scenario, t *dsim.Tape, o Opts) (res RunResult) {
 		os.RemoveAll(x.tmp)
 	}
 	dsim.SetKnobs(nil)
+	if x.viol != nil && x.viol.Class == "harness" {
+		x.harnessErr = x.viol.Signature + ": " + x.viol.Detail
+		x.viol = nil
+	}
 	res = RunResult{Seed: t.Seed, Violation: x.viol, Inconclusive: x.inconclusive, HarnessErr: x.harnessErr, Steps: x.steps,
 		Switches: x.switches, SimTimeNs: int64(x.simTime), SchedSig: x.schedSig, TraceHash: x.traceHash, Digest: x.digest,
 		Strategy: x.strategy, Notes: x.notes, Faults: x.faults, Probes: x.probes, KnownHits: x.knownHits, TapeLen: len(t.Rec),
@@ -292,6 +296,7 @@ type Summary struct {
 	Probes       map[string]int   `json:"probes"`
 	Strategies   map[string]int   `json:"strategies"`
 	KnownHits    map[string]int   `json:"known_hits"`
+	KnobOnly     map[string]int   `json:"knob_only"`
 	Distinct     []uint64         `json:"distinct"`   // hashes of (digest, schedule signature, fault multiset) of non-trivial runs
 	SchedSigs    []uint64         `json:"sched_sigs"` // distinct schedule signatures
 	Samples      []RunResult      `json:"samples"`
@@ -432,6 +437,10 @@ func searchMain(name string, sc Scenario, opts Opts) {
 	distinct := map[uint64]bool{}
 	sigs := map[uint64]bool{}
 	seenViol := map[string]bool{}
+	knobOnlySeen := map[string]int{}
+	realRule := os.Getenv("VERIF_REAL_RULE") == "1"
+	realSearch := envInt("VERIF_REAL_SEARCH", 60)
+	sum.KnobOnly = map[string]int{}
 	for i := from; i < to; i++ {
 		if time.Since(t0) > wall {
 			break
@@ -493,14 +502,44 @@ func searchMain(name string, sc Scenario, opts Opts) {
 			seenViol[key] = true
 			watchdogRun = -1 - i // shrinking: many runs, own budget
 			rf := Shrink(sc, name, prop, res, opts, shrinkS)
+			if realRule && !opts.RealOnly {
+				// real-constants rule: only a violation that reproduces with every knob at its real value counts
+				ro := opts
+				ro.RealOnly = true
+				ro.Known = map[string]bool{}
+				same := func(r RunResult) bool {
+					return r.HarnessErr == "" && r.Violation != nil && r.Violation.Class == res.Violation.Class && r.Violation.Signature == res.Violation.Signature
+				}
+				r := RunOnce(sc, dsim.ReplayTape(seed, rf.Tape), ro)
+				found := same(r)
+				if !found {
+					r = RunOnce(sc, dsim.ReplayTape(seed, res.tape), ro)
+					found = same(r)
+				}
+				for j := 0; !found && j < realSearch; j++ {
+					r = RunOnce(sc, dsim.NewTape(dsim.Mix(seed, uint64(1000+j))), ro)
+					found = same(r)
+				}
+				if !found {
+					sum.KnobOnly[res.Violation.Signature]++
+					delete(seenViol, key)
+					knobOnlySeen[key]++
+					if knobOnlySeen[key] >= 3 {
+						seenViol[key] = true // stop spending time on it in this worker
+					}
+					continue
+				}
+				r.Run = i
+				rf = Shrink(sc, name, prop, r, ro, shrinkS)
+			}
 			path := ""
 			if replayDir != "" {
 				os.MkdirAll(replayDir, 0o755)
-				path = filepath.Join(replayDir, fmt.Sprintf("%s-%s-seed%d.json", prop, sanitize(res.Violation.Signature), seed))
+				path = filepath.Join(replayDir, fmt.Sprintf("%s-%s-seed%d.json", prop, sanitize(res.Violation.Signature), rf.Seed))
 				b, _ := json.MarshalIndent(rf, "", " ")
 				os.WriteFile(path, b, 0o644)
 			}
-			sum.Violations = append(sum.Violations, ViolationEntry{Run: i, Seed: seed, Violation: rf.Expect, Replay: path, TapeLen: len(rf.Tape)})
+			sum.Violations = append(sum.Violations, ViolationEntry{Run: i, Seed: rf.Seed, Violation: rf.Expect, Replay: path, TapeLen: len(rf.Tape)})
 			if len(sum.Violations) >= maxViol {
 				break
 			}
